@@ -11,12 +11,14 @@ import (
 	"hash/fnv"
 	"os"
 	"path/filepath"
+	"runtime"
 	"runtime/debug"
 	"sort"
 	"strconv"
 	"strings"
 	"sync"
 	"testing"
+	"time"
 
 	"github.com/bytemare/secp256k1/verifharness/ref"
 	"pgregory.net/rapid"
@@ -197,9 +199,46 @@ func (c *Check[C]) Execute(t *testing.T) {
 		c.stats.flush(shard)
 	})
 
+	// Watchdog: every case of every check is a handful of calls that take micro- to milliseconds (the slowest, C17, bounds
+	// its own sub-processes). A case that has not finished after caseTimeout is not slow, it is blocked (deadlock, leaked
+	// resource): it is reported as a violation with the case as replay file. The margin is several orders of magnitude.
+	caseTimeout := time.Duration(envInt("VERIF_CASE_TIMEOUT_S", 300)) * time.Second
+	var (
+		wdMu      sync.Mutex
+		wdCurrent *C
+		wdTimer   *time.Timer
+	)
+	arm := func(v *C) {
+		wdMu.Lock()
+		defer wdMu.Unlock()
+		wdCurrent = v
+		if wdTimer != nil {
+			wdTimer.Stop()
+		}
+		if v != nil {
+			wdTimer = time.AfterFunc(caseTimeout, func() {
+				wdMu.Lock()
+				cur := wdCurrent
+				wdMu.Unlock()
+				if cur == nil {
+					return
+				}
+				path := writeReplay(c.Property(), c.Name, *cur, Fail("hang", "the case did not finish within %v: a call never returned", caseTimeout))
+				fmt.Printf("VERIF-FAIL check=%s replay=%s\n", c.Name, path)
+				fmt.Printf("--- the case did not finish within %v (blocked call); goroutines:\n", caseTimeout)
+				buf := make([]byte, 1<<16)
+				fmt.Printf("%s\n", buf[:runtime.Stack(buf, true)])
+				os.Exit(1)
+			})
+		}
+	}
+	t.Cleanup(func() { arm(nil) })
+
 	one := func(v C, fixed bool) error {
 		o := &Obs{}
+		arm(&v)
 		err := c.exec(v, o)
+		arm(nil)
 		var f *Failure
 		if errors.As(err, &f) && open[c.Name+":"+f.Class] {
 			c.stats.recordExcluded()
